@@ -476,8 +476,9 @@ static void incdec_unary()
     if (LW == 'V' && !fits_guest<T>(aw)) {
       continue;
     }
-    for (int which = 0; which < 6; which++) {
-      // 0 ++x, 1 x++, 2 --x, 3 x--, 4 -x, 5 ~x
+    for (int which = 0; which < 8; which++) {
+      // 0 ++x, 1 x++, 2 --x, 3 x--, 4 -x, 5 ~x, 6 ++(++x), 7 --(--x): the prefix forms yield the
+      // operand itself, so a second update through the result lands on the operand
       if (which == 5 && !std::is_integral_v<T>) {
         continue;
       }
@@ -490,7 +491,8 @@ static void incdec_unary()
         hi = (W)std::numeric_limits<T>::max();
         // defined behaviour only
         if (std::is_signed_v<T> && ((which <= 1 && aw == hi) || ((which == 2 || which == 3) && aw == lo) ||
-                                    (which == 4 && aw == lo))) {
+                                    (which == 4 && aw == lo) || (which == 6 && aw >= hi - 1) ||
+                                    (which == 7 && aw <= lo + 1))) {
           continue;
         }
       }
@@ -512,10 +514,16 @@ static void incdec_unary()
         case 4:
           pret = bits_of(-px);
           break;
-        default:
+        case 5:
           if constexpr (std::is_integral_v<T>) {
             pret = bits_of(~px);
           }
+          break;
+        case 6:
+          pret = bits_of(++(++px));
+          break;
+        default:
+          pret = bits_of(--(--px));
           break;
       }
       bool fits = fits_guest<T>(bits_of(px)) || std::is_floating_point_v<T>;
@@ -548,12 +556,18 @@ static void incdec_unary()
               ret = bits_of(r);
               break;
             }
-            default:
+            case 5:
               if constexpr (std::is_integral_v<T>) {
                 auto r = (~wx).UNSAFE_unverified();
                 same = std::is_same_v<decltype(r), decltype(~a)>;
                 ret = bits_of(r);
               }
+              break;
+            case 6:
+              ret = bits_of((++(++wx)).UNSAFE_unverified());
+              break;
+            default:
+              ret = bits_of((--(--wx)).UNSAFE_unverified());
               break;
           }
           after = bits_of(wx.UNSAFE_unverified());
@@ -569,11 +583,11 @@ static void incdec_unary()
         outc = "abort";
       }
       g_fpe_armed = 0;
-      static const char* NM[] = { "++pre", "++post", "--pre", "--post", "neg", "compl" };
+      static const char* NM[] = { "++pre", "++post", "--pre", "--post", "neg", "compl", "++pre++pre", "--pre--pre" };
       tr::Ev e("upd");
       e.str("op", NM[which]).str("lw", std::string(1, LW)).str("rw", "-").str("lt", TN<T>::v).str("rt", "-");
       e.wide("a", aw).wide("b", 0).wide("plain_after", bits_of(px)).wide("plain_ret", pret).wide("after", after);
-      e.wide("ret", ret).str("out", outc).boolean("fits", fits).boolean("volatile_target", LW == 'V' && which < 4);
+      e.wide("ret", ret).str("out", outc).boolean("fits", fits).boolean("volatile_target", LW == 'V' && (which < 4 || which >= 6));
       e.boolean("same_type", same);
       out.put(e);
     }
